@@ -720,6 +720,9 @@ class Ex:
             if isinstance(obj, VObj):
                 self.set_field(obj, target.attr, v)
                 return
+            h = getattr(self.world, "setattr", None)
+            if h is not None and h(self, obj, target.attr, v) is not NotImplemented:
+                return
             raise Unsupported("attribute store on " + repr(obj))
         if isinstance(target, ast.Subscript):
             cont = self.ev(target.value)
@@ -826,6 +829,9 @@ class Ex:
             return consts[name]
         if name in self.classes:
             return VClass(name)
+        ok, val = self.ref.mod.imported_constant(name)
+        if ok:
+            return val
         return VGlobal(name)
 
     def ex_Attribute(self, e):
